@@ -4,16 +4,30 @@ import ast
 import z3
 
 from . import types as T
-from .types import Ty, Ref, NONE, sort_of, parse as ty
+from .types import AND, OR, Ty, Ref, NONE, sort_of, parse as ty
 from .source import SourceError, header_text, strip_docstring
 from .contract import Clause, Contract, Loop
 from .engine import (V, Py, NONE_V, mk_bool, mk_int, mk_str, Obligation, SymExc, Signal, ReturnSig,
                      BreakSig, ContinueSig, PathEnd, RaiseSig, Unsupported, State)
 from .verifier import Verifier, Frame, _parse_expr, NOOP_FUNCS
 
-SPEC_ONLY = {"old", "at_loop", "implies", "iff", "ite", "forall", "exists", "fresh", "typeis", "instance",
+SPEC_ONLY = {"allocated", "abs_select", "lo", "hi", "store", "const_arr", "elems", "lemma", "old", "at_loop", "implies", "iff", "ite", "forall", "exists", "fresh", "typeis", "instance",
              "unchanged", "unchanged_since_loop", "seq_len", "int_str", "join", "in_re", "card", "is_none",
              "some", "select"}
+
+
+def _is_lemma_shape(node):
+    if isinstance(node, ast.Call) and isinstance(node.func, ast.Name):
+        f = node.func.id
+        if f == "lemma":
+            return True
+        if f == "forall" and len(node.args) == 3:
+            return _is_lemma_shape(node.args[2])
+        if f == "implies" and len(node.args) == 2:
+            return _is_lemma_shape(node.args[1])
+    if isinstance(node, ast.BoolOp) and isinstance(node.op, ast.And):
+        return all(_is_lemma_shape(v) for v in node.values)
+    return False
 
 
 def _contains_call(node):
@@ -28,6 +42,15 @@ class Exec(Verifier):
         if isinstance(n.func, ast.Name) and n.func.id not in self.st.loc:
             name = n.func.id
             if self.spec_depth or self.in_ghost or name in self.reg.logic.funcs:
+                if name == "use_lemma" and self.in_ghost:
+                    self.assume(self.lemma_instance(n.args[0].value, [self.ev_v(x) for x in n.args[1:]]))
+                    return NONE_V
+                if name == "use" and self.in_ghost:
+                    # `use(e)`: e is built only from forall / implies(_, .) / and over lemma(...) instances, hence valid
+                    if not _is_lemma_shape(n.args[0]):
+                        raise Unsupported("use(...) accepts only quantified / guarded lemma instances")
+                    self.assume(self.truth(self.ev(n.args[0])))
+                    return NONE_V
                 if name == "assume" and self.in_ghost:
                     self.assume(self.truth(self.ev(n.args[0])))
                     self.ghost_assumes.append("%s: assume(%s)" % (self.cur_func, ast.unparse(n.args[0])))
@@ -325,7 +348,7 @@ class Exec(Verifier):
             if base.ty.kind == "list":
                 i = self.coerce(idx, T.INT).t
                 n = self.seq_len(base)
-                self.oblige("IndexError: list assignment index out of range", "safety", z3.And(i >= 0, i < n))
+                self.oblige("IndexError: list assignment index out of range", "safety", AND(i >= 0, i < n))
                 key, srt = self.el_key(base.ty)
                 arr = z3.Store(self.seq_arr(base), i, self.coerce(v, base.ty.elem).t)
                 self.hset(key, z3.Store(self.hget(key, srt), base.t, arr))
@@ -494,7 +517,7 @@ class Exec(Verifier):
             def unmodified():
                 if v.ty.kind == "seq":
                     return None
-                return z3.And(self.seq_len(v) == n, self.seq_arr(v) == arr, self.seq_base(v) == base)
+                return AND(self.seq_len(v) == n, self.seq_arr(v) == arr, self.seq_base(v) == base)
             return n, elem, unmodified
         if isinstance(v, Py) and v.kind == "reversed":
             n, elem, chk = self.iter_source(v.p)
@@ -521,15 +544,15 @@ class Exec(Verifier):
     def dict_snapshot(self, d, which):
         """Iteration order of a dict: a duplicate-free enumeration ks[0..n) of its key set."""
         KT, VT = d.ty.args
-        n = self.card(d.t)
+        n = self.card(d)
         self.assume(n >= 0)
         ks = self.fresh("keys", z3.ArraySort(z3.IntSort(), sort_of(KT)))
         dom, mp = self.dict_dom(d), self.dict_map(d)
         i, j = self.fresh("i", z3.IntSort()), self.fresh("j", z3.IntSort())
         k = self.fresh("k", sort_of(KT))
         idx = z3.Function("idx_%d" % self.counter, sort_of(KT), z3.IntSort())
-        self.assume(z3.ForAll([i], z3.Implies(z3.And(i >= 0, i < n), z3.And(z3.Select(dom, z3.Select(ks, i)), idx(z3.Select(ks, i)) == i))))
-        self.assume(z3.ForAll([k], z3.Implies(z3.Select(dom, k), z3.And(idx(k) >= 0, idx(k) < n, z3.Select(ks, idx(k)) == k))))
+        self.assume(z3.ForAll([i], z3.Implies(AND(i >= 0, i < n), AND(z3.Select(dom, z3.Select(ks, i)), idx(z3.Select(ks, i)) == i))))
+        self.assume(z3.ForAll([k], z3.Implies(z3.Select(dom, k), AND(idx(k) >= 0, idx(k) < n, z3.Select(ks, idx(k)) == k))))
         self._last_dict_snapshot = (ks, n, idx)
 
         def elem(ii):
@@ -566,6 +589,8 @@ class Exec(Verifier):
             n, elem, unmodified = src
             self.st.loc[idx_name] = V(T.INT, z3.IntVal(0))
             self.st.loc["_n%s" % ordinal] = V(T.INT, n)
+        saved_loop_heap = getattr(self, "loop_heap", None)
+        self.loop_heap = dict(self.st.heap)
         # 1. invariant on entry
         for cl in spec.invariant:
             self.oblige("%s invariant %s holds on entry" % (label, cl.label), "inv-entry",
@@ -597,7 +622,7 @@ class Exec(Verifier):
         if src is not None:
             iv = self.fresh(idx_name, IntS)
             self.st.loc[idx_name] = V(T.INT, iv)
-            self.assume(z3.And(iv >= 0, iv <= n))
+            self.assume(AND(iv >= 0, iv <= n))
         if spec.modifies is None:
             for k in list(self.st.heap.keys()):
                 if k.startswith("$s"):
@@ -607,7 +632,6 @@ class Exec(Verifier):
         else:
             self.havoc(spec.modifies, dict(self.st.loc), allocates=('$alloc' in spec.modifies))
         head_heap = dict(self.st.heap)
-        saved_loop_heap = getattr(self, "loop_heap", None)
         self.loop_heap = pre_heap
         # 3. assume invariant
         for cl in spec.invariant:
@@ -620,7 +644,7 @@ class Exec(Verifier):
         else:
             enter = self.branch(self.st.loc[idx_name].t < n, "for")
         if enter:
-            self.probes.append(("%s::%s body reachable" % (self.cur_func, label), list(self.st.pc)))
+            self.probes.append(("%s::%s body reachable" % (self.cur_func, label), list(self.st.glob) + list(self.st.pc)))
             if src is not None:
                 el = elem(self.st.loc[idx_name].t)
                 if isinstance(el, V):
@@ -667,14 +691,18 @@ class Exec(Verifier):
             key = m.split("@")[0].strip()
             if key == "$alloc" and hkey == "$alloc":
                 return True
-            if key in ("list",) and (hkey == "$len" or hkey.startswith("$el:")):
-                return True
-            if key == "deque" and (hkey in ("$dlo", "$dhi") or hkey.startswith("$el:")):
-                return True
-            if key == "set" and (hkey.startswith("$set:") or hkey == "$card"):
-                return True
-            if key == "dict" and (hkey.startswith("$dom:") or hkey.startswith("$map:") or hkey == "$card"):
-                return True
+            if key in ("list", "deque", "set", "dict") and "@" in m:
+                # region of the named container(s): every heap map of that region may change
+                try:
+                    for o in m.split("@", 1)[1].split(","):
+                        tv = self.spec_value(o.strip(), dict(self.st.loc))
+                        rg = tv.ty.region
+                        pref = {"list": ("$len", "$el:"), "deque": ("$dlo", "$dhi", "$el:"), "set": ("$set:", "$card"),
+                                "dict": ("$dom:", "$map:", "$card")}[key]
+                        if any(hkey.startswith(p_) for p_ in pref) and (hkey.endswith(rg) if rg else "#" not in hkey):
+                            return True
+                except Exception:  # noqa
+                    pass
             if key in self.reg.logic.globals and hkey == "$g:" + key:
                 return True
             if "." in key:
@@ -780,6 +808,7 @@ class Exec(Verifier):
         self.cur_props = con.props
         self.obligations, self.probes, self.trivial = [], [], 0
         self.ghost_assumes = []
+        self.lemmas_used = set()
         self.path_log = []
         choices = []
         paths = 0
@@ -830,6 +859,11 @@ class Exec(Verifier):
                     self.frame = _dummy_frame(con)
                     self.assume(self.spec(cl.expr, {}))
             i0 = 0
+            for l2 in self.reg.logic.lemmas:
+                if l2.name in con.uses:
+                    self.frame = _dummy_frame(con)
+                    self.assume(lemma_formula(self, l2))
+                    self.lemmas_used.add(l2.name)
             self.frame = _dummy_frame(con)
             if con.cls is not None and "staticmethod" not in decos and names:
                 if "classmethod" in decos:
@@ -872,7 +906,7 @@ class Exec(Verifier):
                 self.assume(self.spec(cl.expr, dict(env)))
             self.entry_heap = dict(self.st.heap)
             self.entry_loc = dict(env)
-            self.probes.append(("%s::entry (requires satisfiable)" % con.qualname, list(self.st.pc)))
+            self.probes.append(("%s::entry (requires satisfiable)" % con.qualname, list(self.st.glob) + list(self.st.pc)))
             try:
                 self.exec_block(strip_docstring(fdef.body))
                 res = NONE_V
@@ -900,7 +934,7 @@ class Exec(Verifier):
             res = self.coerce(res, rt)
         env["result"] = res
         self.old_heap = None
-        self.probes.append(("%s::normal exit reachable" % con.qualname, list(self.st.pc)))
+        self.probes.append(("%s::normal exit reachable" % con.qualname, list(self.st.glob) + list(self.st.pc)))
         for cl in con.ensures:
             self.oblige("ensures %s" % cl.label, "post", self.spec(cl.expr, env), cl.props or con.props, text=cl.expr)
 
@@ -932,35 +966,90 @@ class Exec(Verifier):
 
 
 def verify_lemma(eng, lem):
-    """-> list of Obligation for a Lemma."""
+    """-> (obligations, probes) for a Lemma; with `induction` = name of an int variable: base and step VCs."""
     from .contract import Contract
     con = Contract("ext::lemma." + lem.name, props=lem.props)
     eng.cur_func = "lemma " + lem.name
     eng.cur_props = lem.props
+    eng.opaque_defs = False
+    eng._funcs = {}
     eng.obligations, eng.probes, eng.trivial, eng.ghost_assumes = [], [], 0, []
+    eng.lemmas_used = set()
     eng.reset_run([])
     eng.exact_excs = set()
     eng.frame = _dummy_frame(con)
     eng.frame_params = set()
     eng.entry_heap, eng.entry_loc = {}, {}
+    eng.cur_stmt = None
     for cl in eng.reg.logic.axioms:
         if cl.label in lem.uses:
             eng.assume(eng.spec(cl.expr, {}))
+    for l2 in eng.reg.logic.lemmas:
+        if l2.name in lem.uses:
+            eng.assume(lemma_formula(eng, l2))
+    base_pc0 = list(eng.st.pc)
+
+    def fresh_env(fixed=None):
+        env = {}
+        for nme, tstr in lem.vars.items():
+            if fixed and nme in fixed:
+                env[nme] = fixed[nme]
+                continue
+            t_ = ty(tstr)
+            pv = V(t_, eng.fresh(nme, sort_of(t_)))
+            eng.assume_type(pv)
+            env[nme] = pv
+        return env
+
+    def prove(tag, env):
+        for cl in lem.requires:
+            eng.assume(eng.spec(cl.expr, env))
+        eng.probes.append(("lemma %s%s hypotheses satisfiable" % (lem.name, tag), list(eng.st.pc)))
+        pc1 = list(eng.st.pc)
+        for cl in lem.ensures:
+            eng.st.pc = list(pc1)
+            eng.oblige("lemma %s%s: %s" % (lem.name, tag, cl.label), "lemma", eng.spec(cl.expr, env), lem.props, text=cl.expr)
+
+    if lem.induction is None:
+        prove("", fresh_env())
+    else:
+        n = lem.induction
+        # base
+        eng.st.pc = list(base_pc0)
+        prove(" [base %s=0]" % n, fresh_env({n: V(T.INT, z3.IntVal(0))}))
+        # step
+        eng.st.pc = list(base_pc0)
+        k = eng.fresh("k", z3.IntSort())
+        eng.assume(k >= 0)
+        # induction hypothesis: the lemma for n := k, all other variables universally quantified
+        mark = len(eng.st.pc)
+        ih_env = fresh_env({n: V(T.INT, k)})
+        type_facts = eng.st.pc[mark:]
+        del eng.st.pc[mark:]
+        hyp = [eng.spec(cl.expr, ih_env) for cl in lem.requires]
+        conc = [eng.spec(cl.expr, ih_env) for cl in lem.ensures]
+        extra = eng.st.pc[mark:]
+        del eng.st.pc[mark:]
+        bound = [v.t for nme, v in ih_env.items() if nme != n]
+        body = z3.Implies(AND(*type_facts, *hyp, *extra) if (type_facts or hyp or extra) else z3.BoolVal(True), AND(conc))
+        eng.assume(z3.ForAll(bound, body) if bound else body)
+        prove(" [step %s=k+1]" % n, fresh_env({n: V(T.INT, k + 1)}))
+    return eng.obligations, eng.probes
+
+
+def lemma_formula(eng, lem):
+    """forall vars. requires => ensures, as a closed z3 formula (used where a contract / lemma `uses` it)."""
+    mark = len(eng.st.pc)
     env = {}
     for nme, tstr in lem.vars.items():
         t_ = ty(tstr)
-        pv = V(t_, eng.fresh(nme, sort_of(t_)))
-        eng.assume_type(pv)
-        env[nme] = pv
-    for cl in lem.requires:
-        eng.assume(eng.spec(cl.expr, env))
-    eng.probes.append(("lemma %s hypotheses satisfiable" % lem.name, list(eng.st.pc)))
-    eng.cur_stmt = None
-    base_pc = list(eng.st.pc)
-    for cl in lem.ensures:
-        eng.st.pc = list(base_pc)
-        eng.oblige("lemma %s: %s" % (lem.name, cl.label), "lemma", eng.spec(cl.expr, env), lem.props, text=cl.expr)
-    return eng.obligations, eng.probes
+        env[nme] = V(t_, eng.fresh(nme, sort_of(t_)))
+    hyp = [eng.spec(cl.expr, env) for cl in lem.requires]
+    conc = [eng.spec(cl.expr, env) for cl in lem.ensures]
+    extra = eng.st.pc[mark:]
+    del eng.st.pc[mark:]
+    body = z3.Implies(AND(*hyp, *extra) if (hyp or extra) else z3.BoolVal(True), AND(conc))
+    return z3.ForAll([v.t for v in env.values()], body)
 
 
 def _dummy_frame(con):
@@ -1002,5 +1091,5 @@ def _load(target):
 def _lex_less(a, b):
     """a < b lexicographically on naturals (b >= 0 componentwise)."""
     if len(a) == 1:
-        return z3.And(b[0] >= 0, a[0] < b[0])
-    return z3.Or(z3.And(b[0] >= 0, a[0] < b[0]), z3.And(a[0] == b[0], _lex_less(a[1:], b[1:])))
+        return AND(b[0] >= 0, a[0] < b[0])
+    return OR(AND(b[0] >= 0, a[0] < b[0]), AND(a[0] == b[0], _lex_less(a[1:], b[1:])))
